@@ -5,6 +5,7 @@ import (
 	"encoding/json"
 	"errors"
 	"fmt"
+	carv2 "github.com/ipld/go-car/v2"
 	"os"
 	"path/filepath"
 	"strings"
@@ -49,6 +50,9 @@ func c20Cfg(target string) lab.Cfg {
 		return lab.Cfg{V1: true}
 	case "stream-opts":
 		return lab.Cfg{V1: true, AllowDup: true, StoreID: true, WholeCID: true}
+	case "stream-writerat-v2":
+		// a "stream" that is also an io.WriterAt, with an explicit WriteAsCarV1(false): a CARv2 is written
+		return lab.Cfg{IndexPad: 2}
 	}
 	panic(target)
 }
@@ -81,7 +85,13 @@ func c20RunHistory(t *mon.T, target string, hist []string, dir string) {
 	var w *deferred.DeferredCarWriter
 	// the deferred stream constructor forces CARv1 itself; pass the remaining options only
 	dopts := cfg
-	if isStream {
+	var wat *iofault.MemFile
+	opts := cfg.Opts()
+	if target == "stream-writerat-v2" {
+		wat = iofault.New(nil)
+		opts = append(opts, carv2.WriteAsCarV1(false))
+		w = deferred.NewDeferredCarWriterForStream(wat, roots, opts...)
+	} else if isStream {
 		dopts.V1 = false
 		w = deferred.NewDeferredCarWriterForStream(stream, roots, dopts.Opts()...)
 	} else {
@@ -92,6 +102,9 @@ func c20RunHistory(t *mon.T, target string, hist []string, dir string) {
 	direct.NoLog = true
 	var dw storage.WritableCar
 	output := func() ([]byte, bool) {
+		if wat != nil {
+			return wat.Bytes(), wat.Writes() > 0
+		}
 		if isStream {
 			return stream.buf.Bytes(), stream.writes > 0
 		}
@@ -165,7 +178,7 @@ func c20RunHistory(t *mon.T, target string, hist []string, dir string) {
 			if !started {
 				started = true
 				var derr error
-				dw, derr = storage.NewWritable(direct, roots, cfg.Opts()...)
+				dw, derr = storage.NewWritable(direct, roots, opts...)
 				if derr != nil {
 					panic(derr)
 				}
@@ -271,7 +284,7 @@ func runC20(t *mon.T, raw json.RawMessage) {
 }
 
 func genC20(g *mon.G) {
-	targets := []string{"path-v1", "path-v2", "path-v2-opts", "stream", "stream-opts"}
+	targets := []string{"path-v1", "path-v2", "path-v2-opts", "stream", "stream-opts", "stream-writerat-v2"}
 	depth := g.Pick(3, 5) // histories up to length 1+depth
 	for _, tg := range targets {
 		for _, op := range c20Ops {
@@ -288,7 +301,7 @@ func init() {
 	Register(&mon.Check{
 		ID:          "C20",
 		Level:       "exploration",
-		Rule:        "EXHAUSTIVE: all op strings of length ≤ 4 (quick) / ≤ 6 (thorough) over {OnPut(once), OnPut(always), Has(k1), Has(k2), Put(k1), Put(k2), Put(identity), Close} x 5 targets (path CARv1, path CARv2, path CARv2 with paddings/codec/identity options, stream, stream with options), plus random strings of length 5-30; after EVERY step: no write on the stream / no file before the first Put, then output bytes equal to a directly constructed storage.NewWritable fed the same puts, callback log equal to the model's (registration order, once-callbacks exactly once), closed-error after Close. A case = all strings sharing a first op; counters.histories counts individual strings",
+		Rule:        "EXHAUSTIVE: all op strings of length ≤ 4 (quick) / ≤ 6 (thorough) over {OnPut(once), OnPut(always), Has(k1), Has(k2), Put(k1), Put(k2), Put(identity), Close} x 6 targets (path CARv1, path CARv2, path CARv2 with paddings/codec/identity options, stream, stream with options, a stream that is an io.WriterAt with WriteAsCarV1(false)), plus random strings of length 5-30; after EVERY step: no write on the stream / no file before the first Put, then output bytes equal to a directly constructed storage.NewWritable fed the same puts, callback log equal to the model's (registration order, once-callbacks exactly once), closed-error after Close. A case = all strings sharing a first op; counters.histories counts individual strings",
 		Assumptions: []string{"the direct writer itself is judged by C01/C05; here only equality with it", "callbacks are registered from the same goroutine (OnPut is registration, not a concurrent operation)"},
 		Gen:         genC20,
 		Run:         runC20,
